@@ -94,6 +94,11 @@ pub fn uninstall() {
     a10::verif::set_hook(None);
 }
 
+/// Re-install the hook without forgetting the workers (after a temporary `uninstall`).
+pub fn install_keep() {
+    a10::verif::set_hook(Some(hook));
+}
+
 /// Create worker `tid` (ids must be 0, 1, 2, … in order) running `f`, and run
 /// it up to its first scheduling point.
 pub fn spawn<F>(f: F) -> usize
